@@ -46,6 +46,8 @@ def pool(cfg, A=10):
         H("h1", 1, p2, N, h0 + pd - 10, pd - 10),        # relative expiry too low
         H("h1", 1, p2, N - 1, h0 + pd + 30, pd + 30),    # declared total too low
         H("h1", 3, p2, N, h0 + pd + 30, pd + 30, decl=A, decl_len=-2),  # amountless + declared (conflicts with inv 1)
+        H("h1", 1, p2, N, h0 - 1, -1),                   # already expired when it is delivered (replayed late)
+        H("h1", 1, N, N, h0 - min(70000, h0), -min(70000, h0)),   # ... long ago (by more than 65535 blocks where the height allows)
     ]
     other = [
         H("h2", 1, N, N, h0 + pd + 30, pd + 30),       # foreign hash carrying an invoice for h1
@@ -252,6 +254,13 @@ def class_jobs(seed, tier, start_run=1):
                 keep.append(c)
         cases = keep
     # (other records around the metadata; the last record of a payload may have an empty value)
+    # record order inside the metadata / a last record whose length field overstates what follows
+    shaped = []
+    for sh, h in cases:
+        if not h["fwd"] and h["fwdmsat"] and h["inv"] in (1, 2, 5, 13, 17) and rng.random() < (1.0 if tier == "thorough" else 0.5):
+            for meta in ("swapped", "overlen"):
+                shaped.append((sh, dict(h, meta=meta)))
+    cases = cases + shaped
     extras = [[], [(10, "aabb")], [(18, ""), (65537, "01")], [(1, "00"), (12, "ff" * 3), (4294967297, "05")],
               [(18, "")], [(10, "aabb"), (65, "")], [(7, ""), (4294967297, "")]]
     for sh, h in cases:
